@@ -148,6 +148,42 @@ func streamLoopFacts(p *pkg) (map[string]bool, error) {
 		"err = s.AbstractPaginator.SetCurrentPage(future)":    true,
 		"parallelisation.SleepWithContext(s.GetContext(), s.backoff)": true,
 	}
+	// the order of the statements matters (the item test may move the paginator to another page before the current
+	// page is looked at): the loop must be exactly this sequence, the context test being optional
+	var seq []string
+	for _, st := range loop.Body.List {
+		seq = append(seq, norm(st))
+	}
+	wantSeq := []string{"<item>", "<ctx>?", "page, err := s.AbstractPaginator.FetchCurrentPage()", "if err != nil { return false }", "stream, ok := page.(IStaticPageStream)",
+		"if !ok { return false }", "if !stream.HasFuture() { return false }", "<dry>", "future, err := s.FetchFuturePage(s.GetContext(), stream)", "if err != nil { return false }",
+		"err = s.AbstractPaginator.SetCurrentPage(future)", "if err != nil { return false }", "parallelisation.SleepWithContext(s.GetContext(), s.backoff)"}
+	i := 0
+	for _, w := range wantSeq {
+		switch {
+		case w == "<item>":
+			if i >= len(seq) || !strings.HasPrefix(seq[i], "if s.AbstractPaginator.HasNext() {") {
+				return nil, fmt.Errorf("stream HasNext: the loop does not start with the item test")
+			}
+			i++
+		case w == "<ctx>?":
+			if i < len(seq) && seq[i] == "if parallelisation.DetermineContextError(s.GetContext()) != nil { return false }" {
+				i++
+			}
+		case w == "<dry>":
+			if i >= len(seq) || !strings.HasPrefix(seq[i], "if s.IsRunningDry()") {
+				return nil, fmt.Errorf("stream HasNext: grace-period test not where it is expected: %v", seq)
+			}
+			i++
+		default:
+			if i >= len(seq) || seq[i] != w {
+				return nil, fmt.Errorf("stream HasNext: statement %d is not `%s`: %v", i, w, seq)
+			}
+			i++
+		}
+	}
+	if i != len(seq) {
+		return nil, fmt.Errorf("stream HasNext: unexpected statements at the end of the loop: %v", seq[i:])
+	}
 	for _, st := range loop.Body.List {
 		src := norm(st)
 		switch {
